@@ -11,6 +11,9 @@ TGTS = ["a", "b", "c"]
 def rand_filter(rng, accept_all=False):
     if accept_all:
         return {"thr": 5, "tgts": TGTS, "kind": "lazy", "hint": 9}
+    if rng.random() < 0.08:
+        # a collector that is switched off entirely and says so (hint OFF)
+        return {"thr": 0, "tgts": sorted(rng.sample(TGTS, rng.choice([0, 3]))), "kind": rng.choice(["static", "dyn"]), "hint": 0}
     thr = rng.choice([0, 1, 2, 3, 4, 5])
     tg = sorted(rng.sample(TGTS, rng.choice([0, 1, 1, 2, 2, 3])))
     kind = rng.choice(["static", "static", "dyn", "lazy"])
@@ -41,7 +44,9 @@ def gen_history(rng, steps, ndisp, nthreads, flavour):
             if nextd > ndisp:
                 continue
             st = flavour == "scopes" and rng.random() < 0.25
-            out.append({"ev": "new", "d": nextd, "f": rand_filter(rng, accept_all=(flavour == "scopes" and rng.random() < 0.7)), "static": st})
+            # the collector may be handed to Dispatch::new behind a Box or an Arc (own forwarding impls in tracing-core)
+            out.append({"ev": "new", "d": nextd, "f": rand_filter(rng, accept_all=(flavour == "scopes" and rng.random() < 0.7)), "static": st,
+                        "wrap": "" if st else rng.choice(["", "", "arc", "box"])})
             handle[nextd] = "static" if st else "held"
             nextd += 1
         elif op == "drop":
@@ -105,9 +110,9 @@ def gen_churn(rng, ndisp=8):
     live = []
     while d < ndisp:
         d += 1
-        thr = rng.choice([1, 2, 3, 3, 4, 5])
+        thr = rng.choice([0, 1, 2, 3, 3, 4, 5])       # 0 with an exact hint: a collector that is switched off and says so
         out.append({"ev": "new", "d": d, "f": {"thr": thr, "tgts": sorted(rng.sample(TGTS, rng.choice([2, 3]))), "kind": rng.choice(["static", "static", "dyn", "lazy"]),
-                                               "hint": rng.choice([thr, thr, 9])}})
+                                               "hint": rng.choice([thr, thr, 9])}, "wrap": rng.choice(["", "", "arc", "box"])})
         t = rng.choice([1, 2])
         if scopes[t]:
             out.append({"ev": "unset", "t": t})
@@ -145,6 +150,12 @@ def tlc_behaviours(n, seed_, out, what):
 
 def run_and_validate(out, behs, name):
     w = vlib.workdir(name)
+    # every third collector of a behaviour that does not say otherwise is handed over behind an Arc or a Box
+    wr = random.Random(len(behs))
+    for b in behs:
+        for st in b.get("steps", []) if isinstance(b, dict) else []:
+            if st.get("ev") == "new" and "wrap" not in st and not st.get("static"):
+                st["wrap"] = wr.choice(["", "", "arc", "box"])
     vlib.write_ndjson(w / "behaviours.ndjson", behs)
     bins = vlib.cargo_build(["dispatch"])
     vlib.run_bin(bins["dispatch"], env={"VH_IN": w / "behaviours.ndjson", "VH_OUT": w / "trace.ndjson"}, timeout=1200)
